@@ -113,6 +113,8 @@ func (g *gen) blockSize() int {
 		return 0
 	case g.r.Chance(5):
 		return 20 + g.r.Intn(30)
+	case g.r.Chance(1):
+		return 250 + g.r.Intn(400)
 	}
 	return 1 + g.r.Intn(5)
 }
@@ -219,6 +221,24 @@ func genC15(r *hx.Rng, tier string, w io.Writer) {
 	g.emit("reopen")
 	g.emit("init")
 	g.emit("get key=%s", hx.Hex([]byte("a")))
+	// large blocks rejected late: everything before the malformed transaction is staged already and must leave no trace
+	// (an executor that commits its batch in chunks of a few hundred writes would keep a prefix)
+	for _, n := range []int{257, 520, 1100} {
+		g.emit("reset")
+		g.emit("init")
+		g.emit("exec txs=%s", hx.HexList([][]byte{[]byte("base=1")}))
+		big := make([][]byte, 0, n+1)
+		for i := 0; i < n; i++ {
+			big = append(big, []byte(fmt.Sprintf("k%04d=%d", i, i)))
+		}
+		big = append(big, []byte("oops"))
+		g.emit("exec txs=%s", hx.HexList(big))
+		g.emit("get key=%s", hx.Hex([]byte("k0000")))
+		g.emit("reexec")
+		g.emit("exec txs=%s", hx.HexList(big[:n]))
+		g.emit("reopen")
+		g.emit("get key=%s", hx.Hex([]byte(fmt.Sprintf("k%04d", n-1))))
+	}
 	// mempool: full channel, drain, never part of the state
 	g.emit("reset")
 	g.emit("exec txs=%s", hx.HexList([][]byte{[]byte("m=1")}))
